@@ -59,6 +59,16 @@ def _search_state_tree(here, out, depth=4):
     if m:
         return {"cmd": ["st_replay", "survivors", m.group(1), m.group(2)], "old": m.group(1), "new": m.group(2),
                 "clause": m.group(3), "tried": int(m.group(4))}, ""
+    note += "; " + p.stdout.strip()[-200:]
+    # ... and on the second family (similar function-call siblings; a prefix removed, fresh leaves appended)
+    try:
+        p = subprocess.run([exe, "survivors-search-similar", "4"], capture_output=True, text=True, timeout=600)
+    except subprocess.TimeoutExpired:
+        return None, note + "; similar-siblings search timeout"
+    m = re.search(r"FOUND old=(\S+) new=(\S+) clause=(.*?) tried=(\d+)", p.stdout)
+    if m:
+        return {"cmd": ["st_replay", "survivors", m.group(1), m.group(2)], "old": m.group(1), "new": m.group(2),
+                "clause": m.group(3), "tried": int(m.group(4))}, ""
     return None, note + "; " + p.stdout.strip()[-200:]
 
 
